@@ -344,8 +344,9 @@ def haveCellFast {ν : Type} (s : Cells ν) (k : Nat) : Bool :=
 
 `ContextualTransactionVerifier::verify(max_cycles, skip_script_verify)`: with `skip_script_verify`
 the script run is skipped and the result carries `cycles = 0`. `BlockTxsVerifier::verify(resolved,
-skip_script_verify)`: the hit path is the same as without the switch (time-relative checks, then the
-**cached** `Completed`, real cycles included); a miss runs the verifier with the switch; the block's
+skip_script_verify)`: the hit path runs the time-relative checks, then answers the cached `Completed`
+— with `cycles = 0` when scripts are skipped (/repo 6d79679, F34; before that commit the cached
+cycles: `cachedSwPreF34`, `blockVerifySwPreF34`); a miss runs the verifier with the switch; the block's
 results are put into the cache only when scripts were run (`!ret.is_empty() && !skip_script_verify`,
 /repo 06109c6 — before that commit they were always put: `blockVerifySwPreF32`); the cycle sum is
 taken over **all** results, hits included. -/
@@ -366,11 +367,31 @@ def fullSw (k : Content) (maxCycles : Nat) (skip : Bool) (timeRel : Bool) (w : N
       | none => .error .fee
       | some f => .ok ⟨cyc, f⟩
 
+/-- the hit arm as repaired by /repo 6d79679 (F34): with scripts skipped a hit records
+`Completed { cycles: 0, fee: completed.fee }`, like a miss -/
 def cachedSw (k : Content) (maxCycles : Nat) (c : VCache) (skip : Bool) (timeRel : Bool) (w : Nat) :
+    Except TxErr Completed :=
+  match c.peek w with
+  | some e => if !timeRel then .error .timeRelative else .ok (if skip then ⟨0, e.fee⟩ else e)
+  | none => fullSw k maxCycles skip timeRel w
+
+/-- … and before it: the cached `Completed`, real cycles included, whatever the switch -/
+def cachedSwPreF34 (k : Content) (maxCycles : Nat) (c : VCache) (skip : Bool) (timeRel : Bool) (w : Nat) :
     Except TxErr Completed :=
   match c.peek w with
   | some e => if !timeRel then .error .timeRelative else .ok e
   | none => fullSw k maxCycles skip timeRel w
+
+def txResultsSwPreF34 (k : Content) (maxCycles : Nat) (c : VCache) (skip : Bool) :
+    List (Nat × Bool) → Except TxErr (List (Nat × Completed))
+  | [] => .ok []
+  | (w, tr) :: rest =>
+    match cachedSwPreF34 k maxCycles c skip tr w with
+    | .error e => .error e
+    | .ok r =>
+      match txResultsSwPreF34 k maxCycles c skip rest with
+      | .error e => .error e
+      | .ok rs => .ok ((w, r) :: rs)
 
 def txResultsSw (k : Content) (maxCycles : Nat) (c : VCache) (skip : Bool) :
     List (Nat × Bool) → Except TxErr (List (Nat × Completed))
@@ -383,7 +404,7 @@ def txResultsSw (k : Content) (maxCycles : Nat) (c : VCache) (skip : Bool) :
       | .error e => .error e
       | .ok rs => .ok ((w, r) :: rs)
 
-/-- `BlockTxsVerifier::verify(resolved, skip)` as written after /repo 06109c6 -/
+/-- `BlockTxsVerifier::verify(resolved, skip)` as written after /repo 06109c6 and 6d79679 -/
 def blockVerifySw (k : Content) (maxCycles : Nat) (c : VCache) (skip : Bool) (txs : List (Nat × Bool)) :
     VCache × Except BlkErr (List Completed) :=
   match txResultsSw k maxCycles c skip txs with
@@ -392,10 +413,19 @@ def blockVerifySw (k : Content) (maxCycles : Nat) (c : VCache) (skip : Bool) (tx
     let c' := if skip then c else putAll c rs
     if (rs.map (·.2.cycles)).sum > maxCycles then (c', .error .cycles) else (c', .ok (rs.map (·.2)))
 
-/-- … and before it (F32): the results of a block verified with scripts skipped were put too -/
+/-- `BlockTxsVerifier::verify` between 06109c6 and 6d79679: the hit arm answers the cached cycles (F34) -/
+def blockVerifySwPreF34 (k : Content) (maxCycles : Nat) (c : VCache) (skip : Bool) (txs : List (Nat × Bool)) :
+    VCache × Except BlkErr (List Completed) :=
+  match txResultsSwPreF34 k maxCycles c skip txs with
+  | .error e => (c, .error (.tx e))
+  | .ok rs =>
+    let c' := if skip then c else putAll c rs
+    if (rs.map (·.2.cycles)).sum > maxCycles then (c', .error .cycles) else (c', .ok (rs.map (·.2)))
+
+/-- … and before 06109c6 (F32): the results of a block verified with scripts skipped were put too -/
 def blockVerifySwPreF32 (k : Content) (maxCycles : Nat) (c : VCache) (skip : Bool) (txs : List (Nat × Bool)) :
     VCache × Except BlkErr (List Completed) :=
-  match txResultsSw k maxCycles c skip txs with
+  match txResultsSwPreF34 k maxCycles c skip txs with
   | .error e => (c, .error (.tx e))
   | .ok rs =>
     let c' := putAll c rs
@@ -449,6 +479,20 @@ def nrunSCold (k : Content) (maxCycles : Nat) (since : Nat → Nat) : Nat → Li
   | ctx, .submit w :: ops => .tx (full k maxCycles (mature since ctx w) w) :: nrunSCold k maxCycles since ctx ops
   | ctx, .probe w :: ops => .tx (full k maxCycles (mature since ctx w) w) :: nrunSCold k maxCycles since ctx ops
   | ctx, .evict _ :: ops => .none :: nrunSCold k maxCycles since ctx ops
+
+/-- every answer, those of assume-valid blocks included (after 6d79679 they too are cache-free) -/
+def nrunSAll (k : Content) (maxCycles : Nat) (since : Nat → Nat) : NodeS → List NOpS → List NAns
+  | _, [] => []
+  | s, op :: ops => let r := nstepS k maxCycles since s op; r.2 :: nrunSAll k maxCycles since r.1 ops
+
+def nrunSAllCold (k : Content) (maxCycles : Nat) (since : Nat → Nat) : Nat → List NOpS → List NAns
+  | _, [] => []
+  | _, .reorg ctx :: ops => .none :: nrunSAllCold k maxCycles since ctx ops
+  | ctx, .block skip ws :: ops =>
+    .blk (blockVerifySw k maxCycles [] skip (ws.map fun w => (w, mature since ctx w))).2 :: nrunSAllCold k maxCycles since ctx ops
+  | ctx, .submit w :: ops => .tx (full k maxCycles (mature since ctx w) w) :: nrunSAllCold k maxCycles since ctx ops
+  | ctx, .probe w :: ops => .tx (full k maxCycles (mature since ctx w) w) :: nrunSAllCold k maxCycles since ctx ops
+  | ctx, .evict _ :: ops => .none :: nrunSAllCold k maxCycles since ctx ops
 
 /-- the same node with the pre-06109c6 fill rule -/
 def nstepSPreF32 (k : Content) (maxCycles : Nat) (since : Nat → Nat) (s : NodeS) : NOpS → NodeS × NAns
